@@ -58,6 +58,7 @@ func randCfg(r *hx.Rng) *c09lib.Cfg {
 	c.White = subset(r, []string{"ukex", "ubtc", "xeth", "frozen"}, 50)
 	c.EnBlack, c.EnWhite = r.Chance(70), r.Chance(35)
 	c.Foreign = r.Chance(70)
+	c.ViaGov = r.Chance(30)
 	c.NVals = 1 + r.Intn(4)
 	c.MinVals = uint64(1 + r.Intn(5))
 	if r.Chance(3) {
@@ -374,20 +375,30 @@ func main() {
 			}
 		}
 	}
-	// freeze matrix: both switches x membership in both lists, for a bank send of the token and for a fee paid in it
-	for mask := 0; mask < 16; mask++ {
-		c := baseCfg()
-		c.EnBlack, c.EnWhite = mask&1 != 0, mask&2 != 0
-		c.Black, c.White = []string{"frozen"}, []string{"ukex", "xeth"}
-		if mask&4 != 0 {
-			c.Black = append(c.Black, "ubtc")
+	// the shared freeze-configuration sweep (c09lib.FreezeSweep): every corner x every path
+	for _, fc := range c09lib.FreezeSweep(baseCfg) {
+		tok := sdk.NewCoins(sdk.NewInt64Coin(fc.Token, 5))
+		nat := sdk.NewCoins(sdk.NewInt64Coin("ukex", 3))
+		run(fc.Cfg, c09lib.TxSpec{Fee: fee(170), Msgs: []c09lib.M{{Kind: "send", From: "a2", To: "a3", Amt: tok}}, Seqs: []uint64{0}, SigOK: true}, fc.Tag+":send")
+		run(fc.Cfg, c09lib.TxSpec{Fee: fee(170), Msgs: []c09lib.M{{Kind: "multisend", From: "a2", Amt: tok, Outs: []c09lib.Out{{To: "a3", Amt: tok}}}}, Seqs: []uint64{0}, SigOK: true}, fc.Tag+":multisend")
+		run(fc.Cfg, c09lib.TxSpec{Fee: fee(170), Msgs: []c09lib.M{{Kind: "custody_send", From: "a2", To: "a3", Amt: tok}}, Seqs: []uint64{0}, SigOK: true}, fc.Tag+":custody_send")
+		run(fc.Cfg, c09lib.TxSpec{Fee: []sdk.Coin{fc.Fee}, Msgs: []c09lib.M{{Kind: "send", From: "a2", To: "a3", Amt: nat}}, Seqs: []uint64{0}, SigOK: true}, fc.Tag+":fee")
+		if fc.Token == "ukex" {
+			run(fc.Cfg, c09lib.TxSpec{Fee: fee(170), Msgs: []c09lib.M{{Kind: "eth", From: "e0", To: "a3", EthAmt: 5}}, Seqs: []uint64{0}, SigOK: true}, fc.Tag+":eth")
 		}
-		if mask&8 != 0 {
-			c.White = append(c.White, "ubtc")
+	}
+	// validator count at minimum-1 / minimum / minimum+1, for minimum 1..4: a disallowed message must pass exactly when count >= minimum
+	for minv := 1; minv <= 4; minv++ {
+		for d := -1; d <= 1; d++ {
+			if minv+d < 1 {
+				continue
+			}
+			c := baseCfg()
+			c.MinVals, c.NVals = uint64(minv), minv+d
+			c.PoorMsgs = []string{"register_identity_records"}
+			run(c, c09lib.TxSpec{Fee: fee(150), Msgs: []c09lib.M{g.msg(c, "upsert_token_info", "a1", "")}, Seqs: []uint64{0}, SigOK: true}, "validator-count")
+			run(c, c09lib.TxSpec{Fee: fee(150), Msgs: []c09lib.M{g.msg(c, "register_identity_records", "a1", ""), {Kind: "multisend", From: "a1", Amt: sdk.NewCoins(sdk.NewInt64Coin("ukex", 4)), Outs: []c09lib.Out{{To: "a2", Amt: sdk.NewCoins(sdk.NewInt64Coin("ukex", 4))}}}}, Seqs: []uint64{0}, SigOK: true}, "validator-count")
 		}
-		run(c, c09lib.TxSpec{Fee: fee(150), Msgs: []c09lib.M{{Kind: "send", From: "a2", To: "a3", Amt: sdk.NewCoins(sdk.NewInt64Coin("ubtc", 5))}}, Seqs: []uint64{0}, SigOK: true}, "freeze-matrix-send")
-		run(c, c09lib.TxSpec{Fee: fee(150), Msgs: []c09lib.M{g.msg(c, "register_identity_records", "a2", ""), {Kind: "send", From: "a2", To: "a3", Amt: sdk.NewCoins(sdk.NewInt64Coin("ubtc", 5))}}, Seqs: []uint64{0}, SigOK: true}, "freeze-matrix-send")
-		run(c, c09lib.TxSpec{Fee: []sdk.Coin{sdk.NewInt64Coin("ubtc", 50)}, Msgs: []c09lib.M{{Kind: "send", From: "a2", To: "a3", Amt: sdk.NewCoins(sdk.NewInt64Coin("ukex", 5))}}, Seqs: []uint64{0}, SigOK: true}, "freeze-matrix-fee")
 	}
 	// weak network: native sends exactly at / around the limit, at each position
 	for pos := 0; pos < 3; pos++ {
